@@ -143,6 +143,9 @@ def run(ctx, sides=SIDES, want_tb=False, prop="C01"):
     single, tern, comp = instances(th)
     run_dump_stage(ctx, "single", single, want_tb, sides, prop)
     run_dump_stage(ctx, "ternary", tern, want_tb, sides, prop)
+    # Mux / Array indexing whose selector or branch is the result of one sign reinterpretation, complement or shift
+    choice = dict(tern, leafbits=2, leafshapes="LSp", ops="ChoiceOps", maxlen=6, maxstack=3, mode="pair")
+    run_dump_stage(ctx, "choice", choice, want_tb, sides, prop)
     run_sim_stage(ctx, "compose", comp, 60000 if th else 8000, want_tb, sides, prop)
     # wide operands (5..8 bit leaves, results up to 26 bits) on 64 sampled corner valuations
     run_sim_stage(ctx, "wide", wide_instance(th), 30000 if th else 4000, want_tb, sides, prop)
